@@ -243,7 +243,7 @@ func judgeTxs(t *rapid.T, b *gen.Builder, parentRoot common.Hash, block *types.B
 }
 
 func TestConservationOnTrees(t *testing.T) {
-	ev.Check(t, ev.N(150, 6000), func(t *rapid.T) {
+	ev.Check(t, ev.N(220, 6000), func(t *rapid.T) {
 		nc := rapid.SampledFrom(gen.Configs()).Draw(t, "config")
 		tr := gen.DrawTree(t, nc, gen.TreeOpts{MaxBranches: 3, MaxDepth: ev.Pick(7, 12), MaxTxs: 5, Uncles: true, MinMain: 5})
 		defer tr.Close()
